@@ -15,7 +15,7 @@ use tensor_chain::signing::{Identity, ValidatorRegistry};
 use tensor_chain::state_root::compute_state_root;
 use tensor_chain::transaction::{apply_transaction_to_store, TransactionState, TransactionWorkspace};
 use tensor_chain::{AutoMergeConfig, ChainConfig, ChainError, TensorChain, TensorStateMachine};
-use tensor_store::{ScalarValue, SparseVector, TensorStore, TensorValue};
+use tensor_store::{ScalarValue, SparseVector, TensorData, TensorStore, TensorValue};
 
 const DIM: usize = 128;
 
@@ -118,6 +118,8 @@ fn verr(e: &ChainError) -> String {
                 "err height".into()
             } else if m.starts_with("tx_root") {
                 "err tx_root".into()
+            } else if m.starts_with("state_root") {
+                "err state_root".into()
             } else if m.starts_with("timestamp") {
                 "err timestamp".into()
             } else if m.starts_with("block must be signed") {
@@ -931,6 +933,28 @@ struct RawChain {
     chain: Chain,
     ids: Vec<Identity>, // [0] unused, [1],[2] registered validators, [3] unregistered
     base_ts: u64,
+    reg: Option<Arc<ValidatorRegistry>>,
+}
+impl RawChain {
+    /// restart: a NEW `Chain` object over the same store (same validator keys) + `initialize()`
+    fn reopen(&mut self) -> Result<(), ChainError> {
+        let graph = Arc::new(GraphEngine::with_store(self.store.clone()));
+        self.chain = match &self.reg {
+            Some(reg) => Chain::with_registry(graph, self.ids[1].node_id(), reg.clone()),
+            None => Chain::new(graph, self.ids[1].node_id()),
+        };
+        self.chain.initialize()
+    }
+    fn state(&self) -> String {
+        format!(
+            "h={} verify={} blocks={} data={} meta={}",
+            self.chain.height(),
+            vres(self.chain.verify_chain()),
+            show_heights(&blocks_present(&self.store)),
+            show_image(&data_image(&self.store)),
+            meta_height(&self.store)
+        )
+    }
 }
 fn new_raw(with_reg: bool) -> RawChain {
     let store = TensorStore::new();
@@ -939,16 +963,27 @@ fn new_raw(with_reg: bool) -> RawChain {
     let reg = Arc::new(ValidatorRegistry::new());
     reg.register(&ids[1]);
     reg.register(&ids[2]);
-    let chain = if with_reg { Chain::with_registry(graph, ids[1].node_id(), reg) } else { Chain::new(graph, ids[1].node_id()) };
+    let chain = if with_reg { Chain::with_registry(graph, ids[1].node_id(), reg.clone()) } else { Chain::new(graph, ids[1].node_id()) };
     chain.initialize().unwrap();
     let base_ts = read_block(&store, 0).unwrap().header.timestamp;
-    RawChain { store, chain, ids, base_ts }
+    RawChain { store, chain, ids, base_ts, reg: if with_reg { Some(reg) } else { None } }
 }
 fn flip(h: &mut [u8; 32]) {
     h[5] ^= 0x10;
 }
 #[allow(clippy::too_many_arguments)]
 fn mk_block(rc: &RawChain, hsel: &str, prev: &str, root: &str, sig: &str, ts_off: u64, prop: usize, txs: &[Tx]) -> Block {
+    mk_block_on(&rc.chain, &rc.ids, rc.base_ts, [0u8; 32], hsel, prev, root, sig, ts_off, prop, txs)
+}
+/// a block on top of `chain`'s current head, each check of `Chain::append` individually satisfiable or not
+#[allow(clippy::too_many_arguments)]
+fn mk_block_on(chain: &Chain, ids: &[Identity], base_ts: u64, state_root: [u8; 32], hsel: &str, prev: &str, root: &str, sig: &str, ts_off: u64, prop: usize, txs: &[Tx]) -> Block {
+    struct R<'a> {
+        chain: &'a Chain,
+        ids: &'a [Identity],
+        base_ts: u64,
+    }
+    let rc = R { chain, ids, base_ts };
     let height = match hsel {
         "same" => rc.chain.height(),
         "skip" => rc.chain.height() + 2,
@@ -959,7 +994,7 @@ fn mk_block(rc: &RawChain, hsel: &str, prev: &str, root: &str, sig: &str, ts_off
         flip(&mut prev_hash);
     }
     let mut b = Block::new(
-        BlockHeader { height, prev_hash, tx_root: [0u8; 32], state_root: [0u8; 32], delta_embedding: SparseVector::new(0), quantized_codes: vec![], timestamp: rc.base_ts - 1000 + ts_off, proposer: rc.ids[prop].node_id(), signature: vec![] },
+        BlockHeader { height, prev_hash, tx_root: [0u8; 32], state_root, delta_embedding: SparseVector::new(0), quantized_codes: vec![], timestamp: rc.base_ts - 1000 + ts_off, proposer: rc.ids[prop].node_id(), signature: vec![] },
         txs.iter().map(Tx::real).collect(),
     );
     match root {
@@ -1804,6 +1839,113 @@ fn main() {
         }
     }
 
+    // ---------------- stream B3: restart (a new `Chain` object over the same store + `initialize()`), healthy and
+    // damaged stores: tip / inner block record removed, height record ahead / behind / deleted, a block record planted
+    // above the head (valid successor, wrong predecessor hash, with a gap).  The recovered head, `verify_chain`, the
+    // height record, one further append and a second restart are compared with the model (`openChain`).
+    let mut r = root.fork("reopen");
+    const DAMAGES: &[&str] = &["none", "remove_tip", "remove_inner", "meta_ahead", "meta_behind", "meta_deleted", "plant_next_valid", "plant_next_badprev", "plant_gap"];
+    let mut tip_obs = false;
+    for case in 0..(DAMAGES.len() as u64 + 40 * scale) {
+        let directed = (case as usize) < DAMAGES.len();
+        let with_reg = directed || r.chance(3, 4);
+        let n = if directed { 2 } else { 1 + r.below(5) };
+        let damage = if directed { DAMAGES[case as usize] } else { *r.pick(DAMAGES) };
+        let mut rc = new_raw(with_reg);
+        m.ask(&format!("cinit {} 1000", u8::from(with_reg)));
+        let mut val = 0u64;
+        let mut lines = Vec::new();
+        for j in 0..n {
+            let ntx = 1 + r.below(3) as usize;
+            let txs = gen_txs(&mut r, ntx, &mut val);
+            let prop = 1 + r.below(2) as usize;
+            let ts_off = 1000 + j * 2;
+            let b = mk_block(&rc, "ok", "ok", "ok", "ok", ts_off, prop, &txs);
+            let line = format!("cappend ok ok ok ok {ts_off} {prop} {}", show_txs(&txs));
+            let imp = rc.chain.append(b).map_or_else(|e| verr(&e), |_| "ok".into());
+            rep.compare("reopen.build", || json!({"line": line}), &imp, &m.ask(&line));
+            lines.push(line);
+        }
+        let set_meta = |store: &TensorStore, h: u64| {
+            let mut td = TensorData::new();
+            td.set("height", TensorValue::Scalar(ScalarValue::Int(h as i64)));
+            store.put("chain:meta", td).unwrap();
+        };
+        let mut plant = |rc: &RawChain, m: &mut Model, r: &mut Rng, hsel: &str, prev: &str| -> String {
+            let txs = gen_txs(r, 1, &mut val);
+            let b = mk_block(rc, hsel, prev, "ok", "ok", 2000, 1, &txs);
+            write_block(&rc.store, b.header.height, &b);
+            let line = format!("cplant {hsel} {prev} ok ok 2000 1 {}", show_txs(&txs));
+            m.ask(&line);
+            line
+        };
+        let dmg_line = match damage {
+            "remove_tip" => {
+                rc.store.delete(&format!("chain:block:{n}")).unwrap();
+                m.ask(&format!("remove {n}"));
+                format!("remove block record {n}")
+            }
+            "remove_inner" if n >= 2 => {
+                let i = 1 + r.below(n - 1);
+                rc.store.delete(&format!("chain:block:{i}")).unwrap();
+                m.ask(&format!("remove {i}"));
+                format!("remove block record {i}")
+            }
+            "meta_ahead" => {
+                let h = n + 1 + r.below(3);
+                set_meta(&rc.store, h);
+                m.ask(&format!("setmeta {h}"));
+                format!("height record := {h}")
+            }
+            "meta_behind" => {
+                let h = r.below(n);
+                set_meta(&rc.store, h);
+                m.ask(&format!("setmeta {h}"));
+                format!("height record := {h}")
+            }
+            "meta_deleted" => {
+                rc.store.delete("chain:meta").unwrap();
+                m.ask("delmeta");
+                "height record deleted".to_string()
+            }
+            "plant_next_valid" => plant(&rc, &mut m, &mut r, "ok", "ok"),
+            "plant_next_badprev" => plant(&rc, &mut m, &mut r, "ok", "bad"),
+            "plant_gap" => plant(&rc, &mut m, &mut r, "skip", "ok"),
+            _ => "none".to_string(),
+        };
+        let healthy = dmg_line == "none";
+        let (h0, tip0) = (rc.chain.height(), rc.chain.tip_hash());
+        let desc = json!({"stream": "reopen", "registry": with_reg, "build": lines, "damage": dmg_line});
+        let opened = rc.reopen();
+        let imp = opened.as_ref().map_or_else(|e| verr(e), |()| rc.state());
+        let model = format!("{} meta={}", m.ask("copen 5000"), m.ask("cmeta"));
+        rep.compare("reopen.initialize", || desc.clone(), &imp, &model);
+        let ver = vres(rc.chain.verify_chain());
+        rep.hit(&format!("reopen.{}.verify_{}", if healthy { "none" } else { damage }, ver.split(' ').take(2).collect::<Vec<_>>().join("_")));
+        if healthy && (opened.is_err() || rc.chain.height() != h0 || rc.chain.tip_hash() != tip0 || ver != "ok") {
+            violation(&mut rep, "tensor_chain.initialize/restart_changed_chain", "a new Chain object over the untouched store of a verifying chain + initialize() does not recover height / tip, or the recovered chain does not verify", desc.clone());
+        }
+        if damage == "remove_tip" && ver == "ok" && !tip_obs {
+            tip_obs = true;
+            rep.observe(json!({"note": "the record of the TIP block was removed from the store: the running object's verify_chain() reports it, but a restart (new Chain + initialize()) walks the height back, saves it and verify_chain() returns Ok on the truncated chain (Lean: reopen_heals_removed_tip_witness); nothing above the tip names its hash",
+                "class": "tensor_chain.initialize/removed_tip_block_undetected_after_restart", "registry": with_reg, "build": lines, "height_before": h0, "height_after_restart": rc.chain.height()}));
+        }
+        // one further block on the recovered head, then a second restart
+        let txs = gen_txs(&mut r, 1, &mut val);
+        let b = mk_block(&rc, "ok", "ok", "ok", "ok", 10_000_000, 1, &txs);
+        let line = format!("cappend ok ok ok ok 10000000 1 {}", show_txs(&txs));
+        let imp = rc.chain.append(b).map_or_else(|e| verr(&e), |_| "ok".into());
+        rep.compare("reopen.append_after", || desc.clone(), &imp, &m.ask(&line));
+        rep.compare("reopen.state_after_append", || desc.clone(), &rc.state(), &format!("{} meta={}", m.ask("cstate"), m.ask("cmeta")));
+        let opened = rc.reopen();
+        let imp = opened.as_ref().map_or_else(|e| verr(e), |()| rc.state());
+        rep.compare("reopen.second_initialize", || desc.clone(), &imp, &format!("{} meta={}", m.ask("copen 6000"), m.ask("cmeta")));
+        rep.case("reopen", Some(&format!("{case} {with_reg} {} {dmg_line}", lines.join(";"))));
+        if case < 1 {
+            rep.sample(json!({"stream": "reopen", "registry": with_reg, "build": lines, "damage": dmg_line, "after_restart": rc.state()}));
+        }
+    }
+
     // ---------------- stream C: merkle root, the duplicated-tail pair on the real Block
     {
         let a = Tx::Put(1, 1).real();
@@ -1934,6 +2076,146 @@ fn main() {
                 m.ask(&format!("rinit {} 5 5", u8::from(shared)));
                 rep.compare("replay.model_roots", || json!({"shared": shared}), "roots equal", &m.ask("rroots"));
             }
+        }
+    }
+
+    // ---------------- stream D2: replica verdicts.  2-3 `TensorStateMachine` replicas with separate state stores,
+    // bootstrapped from one genesis block, with and without validator keys; a sequence of blocks built on replica 0's
+    // head, each check of `apply_block` / `Chain::append` individually violated in some of them (state root altered or
+    // stale, height, predecessor hash, transaction root, signature), blocks applied twice, a replica that misses a
+    // block and lags.  Every verdict and every replica state is compared with the model (`applyBlock`); oracles on
+    // the implementation alone: a rejected block leaves the replica untouched; replicas in agreement give the same
+    // verdict and end with the same state root.
+    let mut r = root.fork("replay.verdicts");
+    for case in 0..30 * scale {
+        let nrep = 2 + r.below(2) as usize;
+        let with_reg = r.chance(1, 2);
+        let ids: Vec<Identity> = (0..4).map(|_| Identity::generate()).collect();
+        let reg = Arc::new(ValidatorRegistry::new());
+        reg.register(&ids[1]);
+        reg.register(&ids[2]);
+        struct Rep {
+            chain: Arc<Chain>,
+            chain_store: TensorStore,
+            sm: TensorStateMachine,
+            state: TensorStore,
+        }
+        let mut reps: Vec<Rep> = Vec::new();
+        for i in 0..nrep {
+            let chain_store = TensorStore::new();
+            if i > 0 {
+                for k in ["chain:block:0", "chain:meta"] {
+                    chain_store.put(k, reps[0].chain_store.get(k).unwrap()).unwrap();
+                }
+            }
+            let graph = Arc::new(GraphEngine::with_store(chain_store.clone()));
+            let chain = Arc::new(if with_reg { Chain::with_registry(graph, ids[1].node_id(), reg.clone()) } else { Chain::new(graph, ids[1].node_id()) });
+            chain.initialize().unwrap();
+            let state = TensorStore::new();
+            let transport = Arc::new(MemoryTransport::new(ids[1].node_id()));
+            let raft = Arc::new(RaftNode::new(ids[1].node_id(), vec![], transport, RaftConfig::default()));
+            let sm = TensorStateMachine::new(chain.clone(), raft, state.clone());
+            reps.push(Rep { chain, chain_store, sm, state });
+        }
+        let base_ts = read_block(&reps[0].chain_store, 0).unwrap().header.timestamp;
+        m.ask(&format!("rnew {nrep} {} 1000", u8::from(with_reg)));
+        let rstate = |x: &Rep| format!("h={} verify={} blocks={} data={}", x.chain.height(), vres(x.chain.verify_chain()), show_heights(&blocks_present(&x.chain_store)), show_image(&data_image(&x.state)));
+        let nblocks = 2 + r.below(6);
+        let mut val = 0u64;
+        let mut script: Vec<String> = Vec::new();
+        let mut accepted = 0u64;
+        let mut rejected = 0u64;
+        for j in 0..nblocks {
+            let (mut hsel, mut prev, mut rootsel, mut sroot, mut sig) = ("ok", "ok", "ok", "ok", "ok");
+            if r.chance(2, 5) {
+                match r.below(9) {
+                    0 => hsel = "same",
+                    1 => hsel = "skip",
+                    2 => prev = "bad",
+                    3 => rootsel = "bad",
+                    4 => sroot = "bad",
+                    5 => sroot = "stale",
+                    6 => sig = "none",
+                    7 => sig = "bad",
+                    _ => sig = "wrongkey",
+                }
+            }
+            let ntx = 1 + r.below(4) as usize;
+            let txs = gen_txs(&mut r, ntx, &mut val);
+            let prop = 1 + r.below(2) as usize;
+            let ts_off = 1000 + 2 * j;
+            // the proposer (replica 0) computes the state root on a copy of its state store
+            let temp = TensorStore::new();
+            temp.restore_from_bytes(&reps[0].state.snapshot_bytes().unwrap()).unwrap();
+            let stale_root = compute_state_root(&temp).unwrap();
+            for t in &txs {
+                apply_transaction_to_store(&temp, &t.real()).unwrap();
+            }
+            let mut state_root = compute_state_root(&temp).unwrap();
+            match sroot {
+                "bad" => flip(&mut state_root),
+                "stale" => state_root = stale_root,
+                _ => {}
+            }
+            let b = mk_block_on(&reps[0].chain, &ids, base_ts, state_root, hsel, prev, rootsel, sig, ts_off, prop, &txs);
+            let line = format!("rblock 0 {hsel} {prev} {rootsel} {sroot} {sig} {ts_off} {prop} {}", show_txs(&txs));
+            m.ask(&line);
+            script.push(line);
+            let skipper = if nrep > 2 && hsel == "ok" && r.chance(1, 8) { Some(nrep - 1) } else { None };
+            let rounds = if r.chance(1, 6) { 2 } else { 1 }; // second round: the same block applied again
+            for round in 0..rounds {
+                let mut pre_keys: Vec<(u64, [u8; 32], Dump)> = Vec::new();
+                let mut verdicts: Vec<Option<String>> = Vec::new();
+                for (i, x) in reps.iter().enumerate() {
+                    let pre = (x.chain.height(), x.chain.tip_hash(), store_dump(&x.state));
+                    if skipper == Some(i) {
+                        script.push(format!("(replica {i} misses this block)"));
+                        pre_keys.push(pre);
+                        verdicts.push(None);
+                        continue;
+                    }
+                    let pre_blocks = blocks_present(&x.chain_store);
+                    let res = x.sm.apply_block(&b);
+                    let imp = res.as_ref().map_or_else(|e| verr(e), |()| "ok".into());
+                    let desc = json!({"stream": "replay.verdicts", "registry": with_reg, "replicas": nrep, "script": script, "replica": i, "round": round});
+                    rep.compare("replay.verdict", || desc.clone(), &imp, &m.ask(&format!("rapply {i}")));
+                    rep.compare("replay.state", || desc.clone(), &rstate(x), &m.ask(&format!("rstate {i}")));
+                    rep.hit(&format!("replay.verdict.{}", imp.replace(' ', "_")));
+                    if res.is_ok() {
+                        accepted += 1;
+                    } else {
+                        rejected += 1;
+                        let post = (x.chain.height(), x.chain.tip_hash(), store_dump(&x.state));
+                        if post != pre || blocks_present(&x.chain_store) != pre_blocks {
+                            violation(&mut rep, "tensor_chain.state_machine.apply_block/rejected_block_changed_replica", "apply_block returned an error but the replica's state store / chain height / tip / block records are not those of before the call", desc.clone());
+                        }
+                    }
+                    script.push(format!("rapply {i} => {imp}"));
+                    pre_keys.push(pre);
+                    verdicts.push(Some(imp));
+                }
+                // determinism among replicas that were in agreement before the block
+                for a in 0..nrep {
+                    for c in a + 1..nrep {
+                        if let (Some(va), Some(vc)) = (&verdicts[a], &verdicts[c]) {
+                            if pre_keys[a] == pre_keys[c] {
+                                let ra = compute_state_root(&reps[a].state).unwrap();
+                                let rc2 = compute_state_root(&reps[c].state).unwrap();
+                                if va != vc || ra != rc2 {
+                                    violation(&mut rep, "tensor_chain.state_machine.apply_block/agreeing_replicas_differ", "two replicas with the same state store contents, height and tip gave different verdicts on the same block, or end with different state roots",
+                                        json!({"stream": "replay.verdicts", "registry": with_reg, "script": script, "replicas": [a, c], "verdicts": [va, vc], "roots_equal": ra == rc2}));
+                                }
+                            }
+                        }
+                    }
+                }
+            }
+        }
+        rep.compare("replay.roots", || json!({"script": script}), if reps.iter().all(|x| compute_state_root(&x.state).unwrap() == compute_state_root(&reps[0].state).unwrap()) { "roots equal" } else { "roots differ" }, &m.ask("rrootsall"));
+        let vkey = format!("{case} {}", script.join(";"));
+        rep.case("replay.verdicts", if accepted > 0 && rejected > 0 { Some(&vkey) } else { None });
+        if case < 1 {
+            rep.sample(json!({"stream": "replay.verdicts", "registry": with_reg, "replicas": nrep, "script": script}));
         }
     }
 
